@@ -4,6 +4,7 @@ import Heathcliff.Proofs.C07L
 import Heathcliff.Proofs.GenEval
 import Heathcliff.Proofs.GenRns2
 import Heathcliff.Proofs.GenRns3
+import Heathcliff.Proofs.GenEval2
 namespace HC.C05
 /-- the level walk of `mod_switch_to` / `rescale_to` refuses upward targets -/
 theorem switch_up_refused {cur tgt : Nat} (h : cur < tgt) : switchSteps cur tgt = .error .refused := by
@@ -122,5 +123,22 @@ theorem gen_divide_and_round_q_last_ntt_inplace_eq : type_of% @HC.gr_divide_and_
 /-- END TO END (BGV `mod_switch_to_next`): on a well-formed BGV level the function generated from the Rust source returns the flat buffer of a polynomial
     whose first size−1 components are the BGV division by the dropped prime of the input (`c05u_BgvDivOfNtt`), and y·q_L ≡ X (mod t) -/
 theorem gen_mod_t_and_divide_q_last_ntt_inplace_bgv : type_of% @HC.gr_mod_t_and_divide_q_last_ntt_inplace_bgv := @HC.gr_mod_t_and_divide_q_last_ntt_inplace_bgv
+
+/-! ### translator tie (phase 4g): decision skeletons of `Evaluator::mod_switch_to_next`, `rescale_to_next`, `rescale_to` and of the refusals of
+     `mod_switch_drop_to_next_internal` (src/evaluator.rs; Gen/EvalFns.lean) = the decision functions of Model/Evaluator.lean
+     (Proofs/GenEval2.lean).  TRUSTED table reading: levels are chain indices, the last level has index 0, one internal routine moves one
+     index down.  Tied by the proofs: validity check first, last level refused, the scheme dispatch (BFV / BGV: dividing routine, CKKS: drop;
+     rescale: CKKS only - ALSO when the target is the current level), direction guard, loop condition, one step per iteration, and that the
+     scale of a dropped CKKS ciphertext is checked against the level it ARRIVES at. -/
+theorem gen_mod_switch_to_next_eq : type_of% @HC.gl_mod_switch_to_next_eq := @HC.gl_mod_switch_to_next_eq
+theorem gen_rescale_to_next_eq : type_of% @HC.gl_rescale_to_next_eq := @HC.gl_rescale_to_next_eq
+theorem gen_rescale_to_eq : type_of% @HC.gl_rescale_to_eq := @HC.gl_rescale_to_eq
+theorem gen_mod_switch_drop_decision_eq : type_of% @HC.gl_mod_switch_drop_decision_eq := @HC.gl_mod_switch_drop_decision_eq
+theorem gen_mod_switch_drop_decision_bits : type_of% @HC.gl_mod_switch_drop_decision_bits := @HC.gl_mod_switch_drop_decision_bits
+theorem gen_modSwitchDropDecision_model : type_of% @HC.gl_modSwitchDropDecision_model := @HC.gl_modSwitchDropDecision_model
+theorem gen_mod_switch_drop_refuses_unfit : type_of% @HC.gl_mod_switch_drop_refuses_unfit := @HC.gl_mod_switch_drop_refuses_unfit
+/-- non-vacuity: a CKKS ciphertext on level 2 walks 2 -> 1 -> 0; a BFV "rescale" to the level it is on is refused -/
+example : HC.GenE.rescale_to true 2 0 .ckks = .ok [1, 0] := by rw [HC.gl_rescale_to_eq _ _ _ _ (by norm_num)]; rfl
+example : HC.GenE.rescale_to true 2 2 .bfv = .error .refused := by rw [HC.gl_rescale_to_eq _ _ _ _ (by norm_num)]; rfl
 
 end HC.C05
